@@ -200,7 +200,8 @@ def _worker(args):
         import importlib
         import torch
         torch.set_num_threads(1)
-        sys.stdout = open(os.devnull, 'w')   # the library prints progress chatter; verdict lines come from the parent only
+        if os.environ.get('VERIF_IN_POOL_WORKER') == '1':
+            sys.stdout = open(os.devnull, 'w')   # the library prints progress chatter; verdict lines come from the parent only
         mod = importlib.import_module(modname)
         out = mod.execute(params)
         return out if isinstance(out, list) else [out]
@@ -219,14 +220,16 @@ def pmap(modname, params_list, workers=None):
     n = len(params_list)
     done = [None] * n
     if workers <= 1 or n <= 1:
-        for i, p in enumerate(params_list):
-            done[i] = _worker((modname, p))
+        with open(os.devnull, 'w') as dn, contextlib.redirect_stdout(dn):
+            for i, p in enumerate(params_list):
+                done[i] = _worker((modname, p))
         return [r for rs in done for r in rs]
     pending = list(range(n))
     for attempt in range(3):
         if not pending:
             break
         ctx = mp.get_context('spawn')
+        os.environ['VERIF_IN_POOL_WORKER'] = '1'   # inherited by the spawned workers only
         try:
             with ProcessPoolExecutor(max_workers=min(workers, len(pending)), mp_context=ctx) as ex:
                 futs = {i: ex.submit(_worker, (modname, params_list[i])) for i in pending}
@@ -237,9 +240,12 @@ def pmap(modname, params_list, workers=None):
                         pass
         except BrokenProcessPool:
             pass
+        finally:
+            os.environ.pop('VERIF_IN_POOL_WORKER', None)
         pending = [i for i in range(n) if done[i] is None]
-    for i in pending:
-        done[i] = _worker((modname, params_list[i]))
+    with open(os.devnull, 'w') as dn, contextlib.redirect_stdout(dn):
+        for i in pending:
+            done[i] = _worker((modname, params_list[i]))
     return [r for rs in done for r in rs]
 
 
